@@ -369,6 +369,64 @@ func runC06(c *Ctx) {
 			c.Undecided(lc.pkg+"."+lc.ownerSrc+"."+lc.src+"#writers", 0, "no store of the encoded source found")
 		}
 	}
+
+	// ------------------------------------------------------------ N6
+	c.Rule("C06.N6", "ALWAYS-WITH", "the sorted validator set cached in StateDB.validatorsSorted holds the record objects of the live validator map: every function that stores into, deletes from or replaces StateDB.validatorObjects of an existing state drops that cache on the same paths, so a state carried across blocks (side-chain verification) and a state freshly opened per block distribute rewards over the same records")
+	c.Min(3)
+	{
+		objF := w.Field("core/state", "StateDB", "validatorObjects")
+		cacheF := w.Field("core/state", "StateDB", "validatorsSorted")
+		nW := 0
+		for _, fn := range w.FuncsIn("core/state") {
+			if strings.HasSuffix(w.fileOf(fn.Pos()), "_test.go") {
+				continue
+			}
+			var writes []ssa.Instruction
+			var bases []ssa.Value
+			var drops []ssa.Instruction
+			for _, in := range allInstrs(fn) {
+				switch x := in.(type) {
+				case ssa.CallInstruction:
+					o := calleeObj(x)
+					if o == nil || recvName(o) != "Map" || o.Pkg() == nil || o.Pkg().Path() != "sync" {
+						continue
+					}
+					switch o.Name() {
+					case "Store", "Delete", "LoadOrStore", "LoadAndDelete", "Swap", "CompareAndSwap", "CompareAndDelete":
+					default:
+						continue
+					}
+					if fa, ok := stripConv(callRecv(x)).(*ssa.FieldAddr); ok && fieldOfAddr(fa) == objF {
+						writes = append(writes, x)
+						bases = append(bases, fa.X)
+					}
+				case *ssa.Store:
+					if fa, ok := x.Addr.(*ssa.FieldAddr); ok {
+						if fieldOfAddr(fa) == objF {
+							writes = append(writes, x)
+							bases = append(bases, fa.X)
+						}
+						if fieldOfAddr(fa) == cacheF {
+							drops = append(drops, x)
+						}
+					}
+				}
+			}
+			for i, wr := range writes {
+				if isLocalAlloc(bases[i]) {
+					continue // a state object created in this function (Copy / New): its cache is empty
+				}
+				nW++
+				c.sites++
+				c.sawFunc(fname(fn))
+				ok := len(drops) > 0 && alwaysWith(wr, drops)
+				c.Check(fmt.Sprintf("%s#validatorObjects-write@%d-drops-sorted-cache", fname(fn), i), wr.Pos(), ok, ifelse(ok, "validatorsSorted is reset on the same paths", "the live validator map changes while the cached sorted set keeps the superseded record objects: GetValidators() (pre-V5 reward distribution, committee look-ups) answers from stale records on a state that lives across blocks, and from fresh ones on a state opened per block — a valid fork is rejected with an invalid validator root"))
+			}
+		}
+		if nW < 3 {
+			c.Undecided("core/state.StateDB.validatorObjects#writers", 0, fmt.Sprintf("only %d writers of the live validator map found", nW))
+		}
+	}
 }
 
 func chainMakerFuncs(w *World) []*ssa.Function {
